@@ -409,7 +409,12 @@ class World:
         b = lambda v: "1" if v else "0"  # noqa: E731
         c = self.conn
         if self.poolclass == "QueuePool":
-            q = self.engine.pool._pool.queue
+            for _attempt in range(5):
+                try:
+                    q = list(self.engine.pool._pool.queue)
+                    break
+                except RuntimeError:  # a finalizer returned a connection while we were looking
+                    q = []
             idle = ",".join("N" if r.dbapi_connection is None else str(r.dbapi_connection.rid) for r in q) or "-"
         else:
             idle = "?"
@@ -457,7 +462,10 @@ class World:
             res, sel = self.do(tok)
             self._register_handles()
         self.warns += sum(1 for x in w if issubclass(x.category, self.sa.exc.SAWarning))
-        return self.record(res, sel)
+        try:
+            return self.record(res, sel)
+        except Exception as e:  # noqa: BLE001  an unobservable state is a deviation, not a crash
+            return "OBSERVE-ERROR:%s/0000/N/N/N/-/-/x/x/-/0" % type(e).__name__
 
 
 def run_ops(ops, reset="rollback", tag="w", poolclass="QueuePool", listener="none", engine_opts="none"):
